@@ -20,7 +20,7 @@ def run (s : Sexp) : String :=
     let m := evalQuery w q.toQuery
     let sp := solutions w q
     let trig := match q.cond.map build with
-      | some e => ",".intercalate ((if trigFalsy w e then ["F-C02-1"] else []) ++ (if e.hasFlatten then ["F-C02-2"] else []))
+      | some e => ",".intercalate (if e.hasFlatten then ["F-C02-2"] else [])
       | none => ""
     s!"model={showBag m} | {showThe m}\tspec={showBag sp} | {showThe sp}\ttrig={trig}"
 end KrroodVerif.Drive.C02
